@@ -126,18 +126,24 @@ func runCheck(id, tier string, ignoreKnown, verbose bool) int {
 			obls = append(obls, o)
 		}
 	}
-	if len(g.Errors) > 0 {
-		seen := map[string]bool{}
-		for _, e := range g.Errors {
-			if !seen[e] {
-				fmt.Fprintln(os.Stderr, "error:", e)
-				seen[e] = true
-			}
+	// Errors while generating obligations (a contract that no longer fits the code: missing loop
+	// invariant, unknown identifier in a clause, construct outside the subset). On the unchanged
+	// tree there are none. On a changed tree they mean the unit's contract can no longer be
+	// discharged: reported as a failed synthetic obligation <unit>/contract-applies.
+	genErrs := map[string][]string{}
+	var genUnits []string
+	for _, e := range g.Errors {
+		unit := e
+		if i := strings.Index(e, ": "); i > 0 {
+			unit = e[:i]
 		}
-		fmt.Fprintf(os.Stderr, "%d configuration/subset errors\n", len(seen))
-		return 2
+		if _, ok := genErrs[unit]; !ok {
+			genUnits = append(genUnits, unit)
+		}
+		genErrs[unit] = append(genErrs[unit], e)
 	}
-	if len(obls) == 0 {
+	sort.Strings(genUnits)
+	if len(obls) == 0 && len(genUnits) == 0 {
 		fmt.Fprintf(os.Stderr, "no obligations generated for %s (vacuity guard)\n", id)
 		return 2
 	}
@@ -234,6 +240,18 @@ func runCheck(id, tier string, ignoreKnown, verbose bool) int {
 				fmt.Printf("NOTE: known finding no longer reproduces (stale): %s\n", k.Rest)
 			}
 		}
+	}
+	for _, unit := range genUnits {
+		name := unit + "/contract-applies"
+		if k := isKnown(name); k != nil {
+			fmt.Printf("KNOWN-FINDING: %s\n", k.Rest)
+			continue
+		}
+		dir := filepath.Join(vd, "replays", id)
+		os.MkdirAll(dir, 0o755)
+		path := filepath.Join(dir, sanitize(name)+".replay")
+		os.WriteFile(path, []byte(fmt.Sprintf("property: %s\nobligation: %s\nThe contract of this unit can no longer be applied to the code (obligations could not be generated):\n%s\nreplay-status: no-failing-input-found\n", id, name, strings.Join(dedup(genErrs[unit]), "\n"))), 0o644)
+		violations = append(violations, fmt.Sprintf("VIOLATION property=%s replay=%s obligation=%s no-failing-input-found", id, path, name))
 	}
 	sort.Strings(violations)
 	for _, v := range violations {
